@@ -5,6 +5,7 @@
 From Coq Require Import List String Bool NArith ZArith.
 Import ListNotations.
 From VF Require Export common.Json gen.Gen_C07 C07.Model C07.StrictModel C07.ParseModel.
+From VF Require C16.Model.
 Open Scope string_scope.
 Open Scope list_scope.
 
@@ -101,23 +102,51 @@ Definition outcome_match (a b : outcome) : bool :=
   | _, _ => outcome_eqb a b
   end.
 
+(* the registered claims of the JWT a document arrived in (unsecured JWT around a document with an embedded proof) *)
+Inductive envelope :=
+| EnvVP (iss jti : string)
+| EnvVC (iss jti : string) (nbf iat exp : option Z) (fmt : list (Z * string)).   (* fmt: seconds -> RFC3339 (UTC) *)
+
+Fixpoint zlookup (t : list (Z * string)) (z : Z) : string :=
+  match t with [] => "" | (k, v) :: r => if Z.eqb z k then v else zlookup r z end.
+
+(* the object the embedded-proof check, the validation and the caller see *)
+Definition refined (e : option envelope) (claim : obj) : obj :=
+  match e with
+  | None => claim
+  | Some (EnvVP iss jti) => refine_vp iss jti claim
+  | Some (EnvVC iss jti nbf iat exp fmt) =>
+      C16.Model.refine (zlookup fmt)
+        {| C16.Model.j_iss := iss; C16.Model.j_sub := ""; C16.Model.j_jti := jti; C16.Model.j_nbf := nbf;
+           C16.Model.j_iat := iat; C16.Model.j_exp := exp; C16.Model.j_vc := claim |}
+  end.
+
 Record case := {
   c_env : env;
   c_doc : obj;
   c_obs : outcome;                                   (* proof stage: Rejected, or Verified (successful signature checks) *)
   c_strict : option (option json * bool);            (* compaction result, and whether strict validation passed *)
   (* string members of the accepted typed object: (field, top-level members in the order of the bytes, value found) *)
-  c_parsed : list (string * list (string * json) * json) }.
+  c_parsed : list (string * list (string * json) * json);
+  c_envl : option envelope }.                        (* Some: c_doc is the vp / vc claim of an unsecured JWT *)
 
 Definition check_case (c : case) : bool :=
-  outcome_match (run_check (c_env c) (c_doc c)) (c_obs c)
-  && recorded_explained (c_env c) (c_doc c)
+  let d := refined (c_envl c) (c_doc c) in
+  outcome_match (run_check (c_env c) d) (c_obs c)
+  && recorded_explained (c_env c) d
   && match c_strict c with
      | None => true
-     | Some (comp, ok) => Bool.eqb (strict_ok SFixed (c_doc c) comp) ok
+     | Some (comp, ok) => Bool.eqb (strict_ok SFixed d comp) ok
      end
   && forallb (fun t => let '(k, ms, v) := t in
-                       json_eqb (match parsed_field k ms with Some x => x | None => JNull end) v) (c_parsed c).
+                       json_eqb (match parsed_field k ms with Some x => x | None => JNull end) v) (c_parsed c)
+  (* an accepted enveloped document is returned with the refined identity members *)
+  && match c_envl c, c_obs c with
+     | Some _, Verified (S _) =>
+         forallb (fun t => let '(k, _, v) := t in
+                           json_eqb (match lookup d k with Some x => x | None => JNull end) v) (c_parsed c)
+     | _, _ => true
+     end.
 
 Fixpoint mismatches_from (i : nat) (cs : list case) : list nat :=
   match cs with
